@@ -252,6 +252,10 @@ def run(ck: vlib.Check):
         p = fdir / f"f{i}.raw"
         write_file(p, w)
         files.append((f, w, str(p)))
+    # a file of many blocks, read one or two blocks per batch: more batches than any bounded queue or cache inside arrays() may hold
+    fm = G.gen_file(rng, nblocks=140 if quick else 500, small=True)
+    wm = G.enc_file(fm); pm = fdir / "many_blocks.raw"; write_file(pm, wm)
+    files.append((fm, wm, str(pm)))
     fz = G.gen_file(rng, nblocks=0)
     wz = G.enc_file(fz)
     pz = fdir / "zero_events.raw"
@@ -264,6 +268,8 @@ def run(ck: vlib.Check):
     for i, (f, w, p) in enumerate(files):
         variants = [(0, None, None, False)]
         variants.append((63, rng.choice([1, 2, 3, 1000]), rng.choice([None, 1, 3]), False))
+        if i == len(files) - 1:
+            variants += [(63, 1, 2, False), (63, 2, None, False), (rng.randrange(1, 64), 1, 4, False)]
         if abi is not None:
             variants.append((rng.choice([63, 63, rng.randrange(1, 64)]), rng.choice([1, 2, 1000]), rng.choice([None, 2]), True))
         if i % 3 == 0:
